@@ -1,6 +1,9 @@
 package c06
 
-import "pgregory.net/rapid"
+import (
+	"pgregory.net/rapid"
+	"verif/busmodel"
+)
 
 func Gen(t *rapid.T) *Case {
 	c := &Case{
@@ -9,6 +12,9 @@ func Gen(t *rapid.T) *Case {
 		Procs:    rapid.SampledFrom([]int{1, 1, 2, 4, 16}).Draw(t, "procs"),
 		End:      rapid.SampledFrom([]string{"wait", "wait", "wait", "shutdown_bg", "shutdown_cancelled", "shutdown_timeout", "shutdown_timeout"}).Draw(t, "end"),
 		SyncToo:  rapid.IntRange(0, 3).Draw(t, "sync") == 0,
+	}
+	if rapid.Bool().Draw(t, "hasAmbient") {
+		c.Ambient = rapid.IntRange(0, busmodel.AmbAll).Draw(t, "ambient")
 	}
 	n := rapid.IntRange(1, 4).Draw(t, "nh")
 	gateCase := rapid.IntRange(0, 2).Draw(t, "gatecase") == 0
